@@ -535,6 +535,90 @@ def bip49Address (env : Env) (net : Network) (sec : Bytes) : AddrOut := do
 /-- `BIP84Node.address` -/
 def bip84Address (env : Env) (net : Network) (sec : Bytes) : AddrOut := forP2pkhWit env net (env.hash160 sec)
 
+/-! ## key objects over time: the `hash160` caches of `Key` and the copying methods
+
+`Key.__init__` starts with `_hash160_compressed = _hash160_uncompressed = None`; `Key.hash160(is_compressed)` fills the
+matching slot on first use and answers from it afterwards; `Key.public_copy()` returns `self` for a public key and a
+*new* object (fresh slots, same compression flag) for a private one, and so do `BIP32Node.public_copy()` and its
+subclasses.  The two SEC encodings of the key are parameters (they depend on the public pair only). -/
+
+inductive KeyKind | key | bip32 | bip49 | bip84
+  deriving DecidableEq, Repr
+
+structure KeyState where
+  isPrivate : Bool
+  /-- `_is_compressed` (always true for the BIP32 family) -/
+  compressed : Bool
+  hashC : Option Bytes
+  hashU : Option Bytes
+  deriving DecidableEq, Repr
+
+/-- `is_compressed` argument: `none` = not given -/
+inductive KeyStep
+  | hash160 (c : Option Bool)
+  | fingerprint (c : Option Bool)
+  | address (c : Option Bool)
+  | sec (c : Option Bool)
+  | publicCopy
+  deriving DecidableEq, Repr
+
+inductive KeyOut
+  | bytes (b : Bytes)
+  | addr (a : AddrOut)
+  | unit
+
+def freshKey (isPrivate compressed : Bool) : KeyState := ⟨isPrivate, compressed, none, none⟩
+
+/-- `Key.hash160(is_compressed=c)` with `c` resolved: answer from the slot, filling it on first use -/
+def keyHash160 (env : Env) (secC secU : Bytes) (st : KeyState) (c : Bool) : Bytes × KeyState :=
+  if c then
+    match st.hashC with
+    | some h => (h, st)
+    | none => (env.hash160 secC, { st with hashC := some (env.hash160 secC) })
+  else
+    match st.hashU with
+    | some h => (h, st)
+    | none => (env.hash160 secU, { st with hashU := some (env.hash160 secU) })
+
+/-- the address a key class derives from the hash of its SEC -/
+def kindAddress (env : Env) (net : Network) (kind : KeyKind) (h : Bytes) : AddrOut :=
+  match kind with
+  | .key => forP2pkh env net h
+  | .bip32 => forP2pkh env net h
+  | .bip84 => forP2pkhWit env net h
+  | .bip49 => do
+    let script ← forInfo (.p2pkhWit h)
+    forP2s env net script
+
+/-- how a missing `is_compressed` argument is resolved: `Key.hash160/fingerprint/address/sec` use the object's flag,
+`BIP49Node.address` / `BIP84Node.address` default to `True` -/
+def resolveFlag (kind : KeyKind) (st : KeyState) (forAddress : Bool) : Option Bool → Bool
+  | some c => c
+  | none => if forAddress ∧ (kind = .bip49 ∨ kind = .bip84) then true else st.compressed
+
+/-- one method call on the key object: its answer and the object afterwards -/
+def keyStep (env : Env) (net : Network) (kind : KeyKind) (secC secU : Bytes) (st : KeyState) : KeyStep → KeyOut × KeyState
+  | .hash160 c => let r := keyHash160 env secC secU st (resolveFlag kind st false c); (.bytes r.1, r.2)
+  | .fingerprint c => let r := keyHash160 env secC secU st (resolveFlag kind st false c); (.bytes (r.1.take 4), r.2)
+  | .address c =>
+    let r := keyHash160 env secC secU st (resolveFlag kind st true c)
+    (.addr (kindAddress env net kind r.1), r.2)
+  | .sec c => (.bytes (if resolveFlag kind st false c then secC else secU), st)
+  | .publicCopy => (.unit, if st.isPrivate then freshKey false st.compressed else st)
+
+def keyRun (env : Env) (net : Network) (kind : KeyKind) (secC secU : Bytes) : KeyState → List KeyStep → List KeyOut
+  | _, [] => []
+  | st, s :: ss => (keyStep env net kind secC secU st s).1 :: keyRun env net kind secC secU (keyStep env net kind secC secU st s).2 ss
+
+/-- the same call answered without any cache -/
+def keyStepFresh (env : Env) (net : Network) (kind : KeyKind) (secC secU : Bytes) (compressed : Bool) : KeyStep → KeyOut
+  | .hash160 c => .bytes (env.hash160 (if resolveFlag kind (freshKey true compressed) false c then secC else secU))
+  | .fingerprint c => .bytes ((env.hash160 (if resolveFlag kind (freshKey true compressed) false c then secC else secU)).take 4)
+  | .address c =>
+    .addr (kindAddress env net kind (env.hash160 (if resolveFlag kind (freshKey true compressed) true c then secC else secU)))
+  | .sec c => .bytes (if resolveFlag kind (freshKey true compressed) false c then secC else secU)
+  | .publicCopy => .unit
+
 def findNet (name : String) : Option Network := all.find? (fun n => n.symbol = name ∨ n.module = name)
 
 end Pycoin.Addr
